@@ -34,6 +34,7 @@ type Stats struct {
 	Unexpanded    int            `json:"raw_variants_seen_not_expanded"`
 	Transitions   int            `json:"transitions"`
 	PoisonRuns    int            `json:"poison_runs"`
+	WarmRuns      int            `json:"warm_runs"`
 	Evaluations   int            `json:"evaluations"`
 	Nontrivial    int            `json:"distinct_nontrivial"`
 	FaultySkipped int            `json:"faulty_transitions_skipped"`
@@ -84,10 +85,67 @@ type Config struct {
 	Tier        string
 	RawVariants int // raw variants expanded per dedup state
 	Poison      bool
+	Warm        bool // run every transition also on a history with read-only queries interleaved after every operation
 	MaxStates   int
 	Deadline    time.Duration
 	GCEvery     int
 	MaxSamples  int
+}
+
+// Warmer is implemented by monitors that check a cheap subset of their suite on the
+// "warmed" variant of every transition: the same history with a bundle of read-only
+// queries executed after every operation (catches state kept outside the index
+// structure, e.g. caches filled by queries). clean is the unwarmed execution of the same transition.
+type Warmer interface {
+	Light(x *Exec, clean *Exec) *Violation
+}
+
+// WarmQueries runs the read-only bundle; results and panics are ignored here (the
+// monitors own them), only its side effects, if any, matter.
+func WarmQueries(u *Universe, d Driver) {
+	safely(func() { d.Min() })
+	safely(func() { d.Max() })
+	safely(func() { d.Size() })
+	for _, q := range u.Probes {
+		safely(func() { d.Search(q) })
+	}
+	first := func(q Query, n int) {
+		safely(func() {
+			c := 0
+			d.Seq(q)(func(Pair) bool { c++; return c < n })
+		})
+	}
+	first(Query{Kind: SeqAll}, 2)
+	first(Query{Kind: SeqBackward}, 2)
+	first(Query{Kind: SeqTopK, N: 1}, 2)
+	first(Query{Kind: SeqBottomK, N: 2}, 3)
+	if u.HasPrefix && len(u.Prefixes) > 1 {
+		first(Query{Kind: SeqPrefix, A: u.Prefixes[1]}, 2)
+	}
+	if u.HasRange && len(u.Bounds) > 1 {
+		first(Query{Kind: SeqRange, A: u.Bounds[0], B: u.Bounds[len(u.Bounds)-1]}, 2)
+	}
+}
+
+// rebuildWarm replays setup+path with the query bundle after every path operation (and once after the setup).
+func rebuildWarm(u *Universe, path []Op) (Driver, *Ref, error) {
+	d := u.New()
+	ref := NewRef(u)
+	for i, op := range u.Setup {
+		if _, p := apply(d, op); p != "" {
+			return nil, nil, fmt.Errorf("panic replaying setup op %d %s: %s", i, u.OpString(op), p)
+		}
+		ref.Apply(op)
+	}
+	WarmQueries(u, d)
+	for i, op := range path {
+		if _, p := apply(d, op); p != "" {
+			return nil, nil, fmt.Errorf("panic replaying path op %d %s: %s", i, u.OpString(op), p)
+		}
+		ref.Apply(op)
+		WarmQueries(u, d)
+	}
+	return d, ref, nil
 }
 
 type stateRec struct {
@@ -238,6 +296,9 @@ func EvalPathX(u *Universe, m Monitor, path []Op, fill string, st *Stats) (*Eval
 		x := &Exec{U: u, D: d, Ref: ref, Stats: st}
 		return &EvalResult{V: m.State(x), D: d, Ref: ref}, nil
 	}
+	if fill == "warm" {
+		return evalWarm(u, m, path, st)
+	}
 	d, pre, err := rebuild(u, path[:len(path)-1])
 	if err != nil {
 		return nil, err
@@ -262,6 +323,40 @@ func EvalPathX(u *Universe, m Monitor, path []Op, fill string, st *Stats) (*Eval
 		return &EvalResult{D: d, Ref: x.Ref, Pre: pre, Faulty: true}, nil
 	}
 	return &EvalResult{V: m.State(x), D: d, Ref: x.Ref, Pre: pre}, nil
+}
+
+// evalWarm executes the last transition of path on the warmed history and on the clean one.
+func evalWarm(u *Universe, m Monitor, path []Op, st *Stats) (*EvalResult, error) {
+	w, ok := m.(Warmer)
+	if !ok {
+		return nil, fmt.Errorf("monitor %s has no warmed variant", m.ID())
+	}
+	op := path[len(path)-1]
+	cd, cpre, err := rebuild(u, path[:len(path)-1])
+	if err != nil {
+		return nil, err
+	}
+	clean := &Exec{U: u, D: cd, Pre: cpre, Op: op, Stats: st, SizeBefore: cd.Size()}
+	clean.DelResult, clean.Panic = apply(cd, op)
+	clean.Ref = cpre.Clone()
+	clean.Ref.Apply(op)
+	wd, wpre, err := rebuildWarm(u, path[:len(path)-1])
+	if err != nil {
+		return nil, err
+	}
+	x := &Exec{U: u, D: wd, Pre: wpre, Op: op, Stats: st, SizeBefore: wd.Size()}
+	x.DelResult, x.Panic = apply(wd, op)
+	x.Ref = clean.Ref
+	if v := m.Transition(x); v != nil {
+		return &EvalResult{V: v, D: wd, Ref: x.Ref, Pre: wpre}, nil
+	}
+	if transitionFaulty(x) {
+		if !transitionFaulty(clean) {
+			return &EvalResult{V: viol("result of "+u.OpString(op)+" on a history with read-only queries interleaved", fmt.Sprintf("as without queries (delete result %v, no panic)", clean.DelResult), fmt.Sprintf("delete result %v, panic %q", x.DelResult, x.Panic)), D: wd, Ref: x.Ref, Pre: wpre}, nil
+		}
+		return &EvalResult{D: wd, Ref: x.Ref, Pre: wpre, Faulty: true}, nil
+	}
+	return &EvalResult{V: w.Light(x, clean), D: wd, Ref: x.Ref, Pre: wpre}, nil
 }
 
 func (e *explorer) finishViolation(v *Violation, path []Op, fill string) {
@@ -518,6 +613,29 @@ func Explore(u *Universe, m Monitor, cfg Config) *Result {
 								return e.res
 							}
 							break
+						}
+					}
+				}
+				if w, ok := m.(Warmer); ok && cfg.Warm {
+					wd, wpre, err := rebuildWarm(u, path)
+					if err != nil {
+						e.res.HarnessErr = err.Error()
+						return e.res
+					}
+					wx := &Exec{U: u, D: wd, Pre: wpre, Op: op, Stats: st, SizeBefore: wd.Size()}
+					wx.DelResult, wx.Panic = apply(wd, op)
+					wx.Ref = x.Ref
+					st.WarmRuns++
+					wv := m.Transition(wx)
+					if wv == nil && transitionFaulty(wx) {
+						wv = viol("result of "+u.OpString(op)+" on a history with read-only queries interleaved", fmt.Sprintf("as without queries (delete result %v, no panic)", x.DelResult), fmt.Sprintf("delete result %v, panic %q", wx.DelResult, wx.Panic))
+					}
+					if wv == nil {
+						wv = w.Light(wx, x)
+					}
+					if wv != nil {
+						if e.report(wv, full, "warm") {
+							return e.res
 						}
 					}
 				}
